@@ -23,6 +23,7 @@ fn opt_dec_str(r: &mut Rng, choices: &[Option<u128>]) -> String {
 fn funds_str(cs: &[Coin]) -> String { coins_str(cs) }
 
 pub struct Gen<'a> {
+    pub faults: bool,
     pub run: crate::streams::hist::Runner,
     pub r: &'a mut Rng,
     pub o: &'a mut Out,
@@ -32,7 +33,21 @@ pub struct Gen<'a> {
 impl<'a> Gen<'a> {
     pub fn emit(&mut self, line: String) -> String {
         self.ops += 1;
-        self.run.step(&line, self.o)
+        if !self.faults || line.starts_with("advance") {
+            return self.run.step(&line, self.o);
+        }
+        // fault enumeration: the same operation is attempted with the 1st, 2nd, … bank call failing,
+        // until an attempt runs without reaching the armed call (that attempt is the real one)
+        let mut k = 1u64;
+        loop {
+            self.run.step(&format!("fault {}", k), self.o);
+            let res = self.run.step(&line, self.o);
+            let hit = self.run.h.last_calls >= k;
+            let kind = crate::monitors::parse_tx(&line).map(|t| t.kind).unwrap_or("send".into());
+            self.o.line(&format!("mon_fault_outcome {} {} {}", hit as u8, (res == "ok") as u8, kind), "ok");
+            if !hit || k >= 14 { return res; }
+            k += 1;
+        }
     }
 
     fn pools(&self) -> Vec<mantra_dex_std::pool_manager::PoolInfoResponse> { self.run.h.all_pools() }
@@ -436,14 +451,14 @@ pub fn gen_cfg(r: &mut Rng) -> WorldCfg {
 }
 
 /// pool-manager centred history
-pub fn gen_pm_case(r: &mut Rng, id: u64, len: u64, o: &mut Out) {
+pub fn gen_pm_case(r: &mut Rng, id: u64, len: u64, faults: bool, o: &mut Out) {
     let cfg = gen_cfg(r);
     let mut run = crate::streams::hist::Runner::new(cfg);
     o.raw(&format!("begin {}", id));
     let il = run.h.init_line();
     o.line(&il, "ok");
     run.first_snap(o);
-    let mut g = Gen { run, r, o, ops: 0 };
+    let mut g = Gen { faults, run, r, o, ops: 0 };
     // a couple of pools first
     g.op_create_pool();
     g.op_create_pool();
@@ -467,14 +482,14 @@ pub fn gen_pm_case(r: &mut Rng, id: u64, len: u64, o: &mut Out) {
 }
 
 /// farm-manager centred history
-pub fn gen_fm_case(r: &mut Rng, id: u64, len: u64, o: &mut Out) {
+pub fn gen_fm_case(r: &mut Rng, id: u64, len: u64, faults: bool, o: &mut Out) {
     let cfg = gen_cfg(r);
     let mut run = crate::streams::hist::Runner::new(cfg);
     o.raw(&format!("begin {}", id));
     let il = run.h.init_line();
     o.line(&il, "ok");
     run.first_snap(o);
-    let mut g = Gen { run, r, o, ops: 0 };
+    let mut g = Gen { faults, run, r, o, ops: 0 };
     // pools with liquidity held by several users
     g.op_create_pool();
     g.op_create_pool();
@@ -509,10 +524,15 @@ pub fn run(kind: &str, seed: u64, cases: u64, replay: Option<&str>, o: &mut Out)
         crate::streams::hist::run_case_lines(&lines, o);
         return;
     }
-    let mut r = Rng::new(seed ^ if kind == "pm_hist" { 0x9A11 } else { 0xFA55 });
+    let mut r = Rng::new(seed ^ match kind { "pm_hist" => 0x9A11, "fm_hist" => 0xFA55, _ => 0xFA17 });
     for i in 0..cases {
         let mut cr = r.fork();
         let len = 15 + cr.below(30);
-        if kind == "pm_hist" { gen_pm_case(&mut cr, i, len, o) } else { gen_fm_case(&mut cr, i, len, o) }
+        match kind {
+            "pm_hist" => gen_pm_case(&mut cr, i, len, false, o),
+            "fm_hist" => gen_fm_case(&mut cr, i, len, false, o),
+            // fault enumeration over both kinds of history
+            _ => if i % 2 == 0 { gen_pm_case(&mut cr, i, len / 2, true, o) } else { gen_fm_case(&mut cr, i, len / 2 + 8, true, o) },
+        }
     }
 }
